@@ -43,26 +43,28 @@ GOENV = {
 CFG = {
     "C01": dict(pkg="core", shards=(8, 16), oracle_selfcheck=True, fuzz=dict(pkg="core", target="^FuzzC01Soup$", seconds=(0, 120)), tests=[
         dict(test="^TestC01Step$", checks=(8000, 40000)),
-        dict(test="^TestC01Soup$", checks=(60000, 2000000))]),
+        dict(test="^TestC01Soup$", checks=(60000, 2000000)),
+        dict(test="^TestC01Exerciser$", checks=(10, 150))]),
     "C02": dict(pkg="core", test="^TestC02$", shards=(1, 1), checks=(1, 1)),
     "C03": dict(pkg="core", test="^TestC03$", shards=(1, 1), checks=(1, 1)),
     "C04": dict(pkg="core", shards=(8, 16), tests=[
         dict(test="^TestC04$", checks=(600, 12000)),
-        dict(test="^TestC04Programs$", checks=(20000, 1000000))]),
+        dict(test="^TestC04Programs$", checks=(50000, 1000000))]),
     "C05": dict(pkg="core", shards=(8, 16), oracle_selfcheck=True, tests=[
         dict(test="^TestC05Step$", checks=(8000, 40000)),
-        dict(test="^TestC05Soup$", checks=(40000, 2000000))]),
+        dict(test="^TestC05Soup$", checks=(40000, 2000000)),
+        dict(test="^TestC05Exerciser$", checks=(6, 100))]),
     "C06": dict(pkg="core", test="^TestC06", shards=(8, 16), checks=(1500, 40000), steps=(60, 80)),
-    "C07": dict(pkg="core", test="^TestC07$", shards=(8, 16), checks=(1200, 40000)),
-    "C08": dict(pkg="core", test="^TestC08$", shards=(8, 16), checks=(5000, 300000)),
-    "C09": dict(pkg="core", test="^TestC09$", shards=(8, 16), checks=(3000, 100000)),
+    "C07": dict(pkg="core", test="^TestC07$", shards=(8, 16), checks=(3000, 40000)),
+    "C08": dict(pkg="core", test="^TestC08$", shards=(8, 16), checks=(20000, 300000)),
+    "C09": dict(pkg="core", test="^TestC09$", shards=(8, 16), checks=(12000, 100000)),
     "C10": dict(pkg="core", race=True, shards=(8, 16), tests=[
         dict(test="^TestC10Deterministic$", checks=(400, 20000)),
         dict(test="^TestC10Concurrent$", checks=(60, 3000)),
         dict(test="^TestC10Boundary$", checks=(60, 3000)),
         dict(test="^TestC10Constructors$", checks=(1, 1)),
         dict(test="^TestC10MemoryKinds$", checks=(60, 3000))]),
-    "C11": dict(pkg="core", test="^TestC11$", shards=(8, 16), checks=(2500, 60000)),
+    "C11": dict(pkg="core", test="^TestC11$", shards=(8, 16), checks=(8000, 60000)),
     "C12": dict(pkg="total", test="^TestC12$", shards=(8, 16), checks=(45000, 1500000),
                 fuzz=dict(pkg="total", target="^FuzzTotal$", seconds=(0, 300))),
     "C13": dict(pkg="core", race=True, test="^TestC13$", shards=(8, 16), checks=(40, 500), shrinktime="5s"),
@@ -71,14 +73,15 @@ CFG = {
         dict(test="^TestC14Step$", checks=(1000, 20000)),
         dict(test="^TestC14Soup$", checks=(20000, 1000000)),
         dict(test="^TestC14Pending$", checks=(200, 20000)),
-        dict(test="^TestC14ShortMemory$", checks=(1, 1))]),
-    "C15": dict(pkg="core", test="^TestC15$", shards=(4, 16), checks=(20000, 400000)),
+        dict(test="^TestC14ShortMemory$", checks=(1, 1)),
+        dict(test="^TestC14Exerciser$", checks=(6, 100))]),
+    "C15": dict(pkg="core", test="^TestC15$", shards=(8, 16), checks=(40000, 400000)),
     "C16": dict(pkg="core", test="^TestC16$", shards=(1, 1), checks=(1, 1)),
     "C17": dict(pkg="zexchk", test="^TestC17$", shards=(1, 1), checks=(1, 1)),
     "C18": dict(pkg="cpm", race=True, shards=(8, 16), tests=[
         dict(test="^TestC18$", checks=(1500, 40000)),
         dict(test="^TestC18Concurrent$", checks=(40, 2000))]),
-    "C19": dict(pkg="cim", test="^TestC19$", shards=(8, 16), checks=(250, 4000)),
+    "C19": dict(pkg="cim", test="^TestC19$", shards=(8, 16), checks=(600, 4000)),
 }
 
 LEVEL_DEFAULT = "exploration"
